@@ -465,12 +465,28 @@ Quiescent ==
   \* C11: an ended session's connection was closed by the broker
   /\ \A c \in Dom(conn) : conn[c].phase = "ended" => conn[c].closed
   /\ \A c \in Dom(conn) : conn[c].phase # "ending"
+  \* C11/C13: silence exceeding the keep-alive allowance ends the session (and releases its will).  The allowance is the
+  \* broker's choice (the code arms twice the keep-alive; MQTT says one and a half): four keep-alives is beyond any.  Only
+  \* sessions without subscriptions are judged - nothing but answers to their own packets is ever written to them, so
+  \* "silent" is exactly "no client packet" whatever the broker counts as activity.
+  /\ \A c \in Dom(conn) :
+        (conn[c].phase = "live" /\ ~conn[c].hostile /\ conn[c].n \notin dead /\ conn[c].ka > 0 /\ ~(\E x \in subs : x.c = c))
+          => vnow - conn[c].lastpkt <= 4 * conn[c].ka * 1000
 
 Ignored == Ev.op \in {"log.consume", "log.get", "writer.done", "publish.done", "gossip.out", "gossip.deliver", "conn.deadline", "rpc.call",
                       "ack.ack.call", "ack.ack.ret", "peer.leave.notified", "purge.waited"}
 
+\* C11/C13 again, at the moment it shows: a client packet is accepted by a connection whose session has been silent for more
+\* than four keep-alives - the broker is still serving a session it should have ended long ago (same proviso as in Quiescent)
+ServedAfterSilence ==
+  /\ Ev.op = "cli.send" /\ Ev.c \in Dom(conn) /\ "dropped" \notin DOMAIN Ev /\ Ev.kind # "RAW"
+  /\ LET k == conn[Ev.c] IN
+     /\ k.phase = "live" /\ ~k.hostile /\ k.n \notin dead /\ k.ka > 0 /\ ~(\E x \in subs : x.c = Ev.c)
+     /\ vnow - k.lastpkt > 4 * k.ka * 1000
+
 Step ==
   /\ l <= Len(Trace) /\ l' = l + 1
+  /\ ~ServedAfterSilence
   /\ \/ New \/ Open \/ SendConnect \/ AuthDone \/ Register \/ ConnAck \/ Tick \/ Timeout \/ ClientClose
      \/ SendPublish \/ SendSubscribe \/ SendUnsubscribe \/ SendOther \/ SendStray
      \/ LogAppend \/ AckInbound \/ PubRecInbound \/ InsertSeam \/ Callback \/ SweepCall \/ SweepRet
